@@ -64,6 +64,7 @@ type response struct {
 	Steps   int64      `json:"steps"`
 	Sites   []int64    `json:"sites"`
 	Events  []string   `json:"events,omitempty"`
+	Stale   int        `json:"stale,omitempty"`
 }
 
 var errTable = map[string]error{
@@ -269,6 +270,16 @@ func encoded(v any) json.RawMessage {
 type session struct {
 	parsers []*bkl.Parser
 	docs    map[string]*bkl.Document
+	held    []heldOutput
+}
+
+// heldOutput keeps the slice an output call returned (not a copy) next to a
+// copy taken at that moment: if a later call changes the bytes behind the
+// returned slice, the two differ at the end of the request.
+type heldOutput struct {
+	op   int
+	orig []byte
+	copy string
 }
 
 func (s *session) parser(i int) (*bkl.Parser, error) {
@@ -364,6 +375,7 @@ func (s *session) exec(o op) (res opResult) {
 		setErr(&res, err)
 
 		if err == nil {
+			s.held = append(s.held, heldOutput{op: len(s.held), orig: out, copy: string(out)})
 			setOut(&res, out)
 		}
 
@@ -481,6 +493,12 @@ func main() {
 
 			for _, o := range req.Ops {
 				resp.Results = append(resp.Results, s.exec(o))
+			}
+
+			for _, h := range s.held {
+				if string(h.orig) != h.copy {
+					resp.Stale++
+				}
 			}
 
 			total, sites := bkl.VerifSteps()
